@@ -1,9 +1,13 @@
 package main
 
 import (
+	"bytes"
 	"encoding/json"
 	"fmt"
+	"go/parser"
+	"go/token"
 	"os"
+	"path/filepath"
 	"strings"
 
 	"github.com/dave/dst"
@@ -18,7 +22,12 @@ import (
 type c15Input struct {
 	Src  string `json:"src"`
 	Kind string `json:"kind"`
+	// Dir: the bytes are also put into a directory (with a second, well-formed file) and parsed through
+	// Decorator.ParseDir, without and with the syntax-only identifier resolver; the packages are printed
+	Dir bool `json:"dir,omitempty"`
 }
+
+var c15Scratch string // set by c15Prop: a directory under /verif/.build
 
 func c15Check(in c15Input) (key, what string) {
 	var f *dst.File
@@ -51,6 +60,39 @@ func c15Check(in c15Input) (key, what string) {
 		}
 	}); pm != "" {
 		return "c15-entry-panic", "Decorator.ParseFile / Restorer.RestoreFile panicked: " + pm
+	}
+	if in.Dir && c15Scratch != "" {
+		dir, e := os.MkdirTemp(c15Scratch, "c15-")
+		if e != nil {
+			return "", ""
+		}
+		defer os.RemoveAll(dir)
+		os.WriteFile(filepath.Join(dir, "x.go"), []byte(in.Src), 0644)
+		os.WriteFile(filepath.Join(dir, "y.go"), []byte("package a\n\nimport \"fmt\"\n\nfunc partner() { fmt.Println() }\n"), 0644)
+		for _, withResolver := range []bool{false, true} {
+			if pm := safely(func() {
+				d := decorator.NewDecorator(token.NewFileSet())
+				if withResolver {
+					d = decorator.NewDecoratorWithImports(token.NewFileSet(), "example.com/a", goastNew())
+				}
+				pkgs, e := d.ParseDir(dir, nil, parser.ParseComments)
+				if e != nil {
+					return
+				}
+				for _, p := range pkgs {
+					for _, f := range p.Files {
+						var buf bytes.Buffer
+						if withResolver {
+							decorator.NewRestorerWithImports("example.com/a", guessNew()).Fprint(&buf, f)
+						} else {
+							decorator.NewRestorer().Fprint(&buf, f)
+						}
+					}
+				}
+			}); pm != "" {
+				return "c15-dir-panic", fmt.Sprintf("Decorator.ParseDir (identifier resolver: %v) + Fprint panicked: %s", withResolver, pm)
+			}
+		}
 	}
 	return "", ""
 }
@@ -103,8 +145,11 @@ var c15Fixed = []string{
 
 func c15Prop(c *Ctx) {
 	c.Res.Rule = "fixed list of degenerate inputs (empty, no package clause, unterminated comment/string, hanging-indent comment shapes) + hand corpus and $GOROOT/src sample in valid layouts (as is, CRLF, mangled with comments at random indents, dense comments) + their corruptions (truncate, delete bytes, flip bytes to punctuation, insert fragments, swap lines); non-trivial = distinct input"
+	c15Scratch = filepath.Join(c.Verif, ".build")
+	nrun := 0
 	run := func(src, kind string) {
-		in := c15Input{Src: src, Kind: kind}
+		nrun++
+		in := c15Input{Src: src, Kind: kind, Dir: kind == "fixed" || nrun%6 == 0}
 		c.Res.Evaluations++
 		c.Res.seen(fmt.Sprint(len(src), kind, src[:min(60, len(src))]))
 		c.Res.hist("c15-kind", kind)
